@@ -16,14 +16,13 @@ CFG = {'quick': ['gen/MC_C12seg_q.cfg', 'gen/MC_C12slice_q.cfg', 'gen/MC_C12filt
        'thorough': ['gen/MC_C12seg_t.cfg', 'gen/MC_C12slice_t.cfg', 'gen/MC_C12filter_t.cfg']}
 REF = os.path.join(vf.SPEC, 'validation', 'C12_ref.ndjson')
 
-# Root causes of suspected jsoncons defects (notes/C12.md, section SUSPECTED DEFECTS).  Each is EXCLUDED from the
-# compared space by default so that the check is green on the pinned tree; set a flag to True (or list it in the
-# environment variable VERIF_C12_INCLUDE, comma separated) to include it again.
+# Root causes of jsoncons defects found by this check (notes/C12.md, section SUSPECTED DEFECTS).  All four were
+# repaired in /repo (fix commit 0d32cc9, known_findings.jsonl) and are therefore INCLUDED in the compared space.
 INCLUDE = {
-    'step_overflow': False,        # TLC constant InclStepOverflow: slice with step 2^63-1 and first index >= 1
-    'empty_array_length': False,   # TLC constant InclEmptyArrLenP: x.length inside a filter where x is an empty array
-    'json_rvalue_replace': False,  # harness --json-rvalue: json_replace(root, expr, Json&&) with two or more matches
-    'get_root': False,             # harness --get-root: get(root, json_location "$") reports not found
+    'step_overflow': True,        # TLC constant InclStepOverflow: slice with step 2^63-1 and first index >= 1
+    'empty_array_length': True,   # TLC constant InclEmptyArrLenP: x.length inside a filter where x is an empty array
+    'json_rvalue_replace': True,  # harness --json-rvalue: json_replace(root, expr, Json&&) with two or more matches
+    'get_root': True,             # harness --get-root: get(root, json_location "$") reports not found
 }
 TLC_FLAG = {'step_overflow': 'InclStepOverflow', 'empty_array_length': 'InclEmptyArrLenP'}
 HARNESS_FLAG = {'json_rvalue_replace': '--json-rvalue', 'get_root': '--get-root'}
